@@ -30,3 +30,15 @@ package snapshot
 //@   requires dl != nil
 //@   modifies *
 //@   ensures [staleLayerRefuses] old(dl.stale) ==> r == nil && err == ErrSnapshotStale
+
+// Flattening a diff layer into the disk layer: the storage slots of a destructed account are deleted
+// from the database under their database key and evicted from the clean cache under the CACHE key of the
+// same slot, which is the database key without its one-byte table prefix (diskLayer.Storage looks slots
+// up under account hash ++ slot hash).
+//@ func diffToDisk(bottom *diffLayer) (r *diskLayer)
+//@   for C08
+//@   requires bottom != nil
+//@   modifies *
+//@   opt assumecallreqs
+//@   atcall Cache.Del requires [evictsTheCacheKeyOfTheDeletedSlot] len(k) == len(key) - 1 && (forall j int :: 0 <= j && j < len(k) ==> k[j] == key[j + 1])
+//@   atcall Batch.Delete requires [deletesTheIteratedKey] sameArray(key, outer(key)) && len(key) == len(outer(key))
